@@ -1112,14 +1112,12 @@ def flow_diff(exp, got, widths, cls_prefix, proto_from):
             n = want[1]
             bits = widths[key]
             if have is None and isinstance(n, int):
-                flen = want[2] if len(want) > 2 else None
-                if want[0] == "must" or (flen is not None and flen * 8 == bits):
-                    out.append((None, "%s absent although the record has the field%s (value %r)"
-                                % (key, " with the width of the common field" if want[0] != "must" else "", n)))
+                if want[0] == "must" or 0 <= n < (1 << bits):
+                    out.append((None, "%s absent although the record has the field (value %r fits the common field)" % (key, n)))
                     continue
-                # the decoded number exists but has another width than the common field:
-                # accepted deviation (value kinds the conversion does not accept)
-                out.append((cls_prefix + "_width", "%s absent although the record has the field (decoded with another width)" % key))
+                # the value does not fit the common field's type (a 4-byte port holding 70000):
+                # nothing the view could say (repair 555d804 narrowed the class to this)
+                out.append((cls_prefix + "_width", "%s absent: the record's value %r does not fit the common field" % (key, n)))
                 continue
             if have != n:
                 out.append((None, "%s = %r, the record's field is %r" % (key, have, n)))
